@@ -543,20 +543,34 @@ func verifH_CliBlocked() {
 	cctx, ccancel := context.WithCancel(context.Background())
 	st, err := c.newStream(cctx, true, true, "svc/m")
 	verifAssume(err == nil)
-	phase := verifChoice("phase", 2)
+	phase := verifChoice("phase", 3)
 	var cerr error
+	var hdrs metadata.MD
 	returned := false
 	verifGo("caller", func() {
-		if phase == 0 {
+		switch phase {
+		case 0:
 			cerr = st.SendMsg(&wrapperspb.BytesValue{Value: []byte{1, 2, 3}})
-		} else {
+		case 1:
 			cerr = st.RecvMsg(&wrapperspb.BytesValue{})
+		case 2:
+			hdrs, cerr = st.Header()
 		}
 		returned = true
 	})
 	verifDrain()
 	verifAssert(!returned, "C05.cli-caller-is-blocked-without-credit-or-data")
 	verifCover("caller-blocked")
+	if phase == 2 {
+		// the headers frame is processed and, before the caller gets to run again, its context ends:
+		// the headers were delivered, so Header() must report them
+		st.acceptServerFrame(&tunnelpb.ServerToClient_ResponseHeaders{ResponseHeaders: &tunnelpb.Metadata{
+			Md: map[string]*tunnelpb.Metadata_Values{"hk": {Val: []string{"h1"}}}}})
+		ccancel()
+		verifDrain()
+		verifAssert(returned && cerr == nil && len(hdrs["hk"]) == 1, "C02+C07.headers-win-over-a-simultaneous-cancel")
+		return
+	}
 	event := verifChoice("event", 4)
 	switch event {
 	case 0:
